@@ -814,6 +814,26 @@ def check_C07(tier, seed, replay=None):
         g.maydiverge = True
         return g
     builders.append(f22)
+
+    # a rule that is left-recursive only behind a NULLABLE RULE, which itself mentions the first rule after consuming input
+    # (the nullable flags of rule references are cached per traversal; the verdict must not depend on the rule names' order)
+    def nullable_rule_prefix(gi, pk, swap, tail):
+        g = _G(gi)
+        X, Pn = (2, 1) if swap else (1, 2)            # X: the recursive rule, Pn: the nullable prefix rule
+        t = lambda: g.lit([F.A])
+        pre = [lambda: g.un("opt", g.seq([t(), g.ref(X)])), lambda: g.un("star", g.seq([t(), g.ref(X)])), lambda: g.un("opt", t()),
+               lambda: g.choice([g.seq([t(), g.ref(X)]), g.lit([])]), lambda: g.seq([g.un("opt", t()), g.un("opt", g.seq([g.lit([F.B]), g.ref(X)]))]),
+               lambda: g.un("and", g.seq([t(), g.ref(X)])), lambda: g.un("opt", g.seq([g.ref(X), t()]))][pk]()
+        rec = g.choice([g.seq([g.ref(Pn), g.ref(X)] + ([g.lit([F.B])] if tail else [])), g.lit([F.B])])
+        g.rules = [pre, rec] if swap else [rec, pre]
+        g.disp = [""] * 2
+        g.compute_args()
+        g.maydiverge = True
+        return g
+    for pk in range(7):
+        for swap in (False, True):
+            for tail in (False, True):
+                builders.append(lambda gi, pk=pk, swap=swap, tail=tail: nullable_rule_prefix(gi, pk, swap, tail))
     groups = [b(i + 1) for i, b in enumerate(builders)]
     pigeon = P.build_pigeon()
     res = run_pigeon_each(groups, [], pigeon)
